@@ -507,6 +507,22 @@ func (e *daemonEngine) apply(a Act) {
 		if n != nil {
 			go e.clientRand(n, "default", a.A)
 		}
+	case "rand_spray":
+		// requests for the round about to be produced, spread over the instants around its production
+		if n != nil {
+			go func() {
+				id := "default"
+				next := e.curRound(id) + 1
+				at := time.Unix(refTimeOfRound(next, e.sc.PeriodS, e.chains[id].genesis.Unix()), 0)
+				if d := time.Until(at); d > 0 {
+					time.Sleep(d)
+				}
+				for k := 0; k < int(a.B); k++ {
+					go e.clientRandRound(n, id, next)
+					time.Sleep(time.Duration(a.A) * time.Microsecond)
+				}
+			}()
+		}
 	case "http":
 		if n != nil {
 			go e.clientHTTP(n, a.S, a.A)
@@ -558,6 +574,16 @@ func (e *daemonEngine) clientRand(n *dNode, id string, round int64) {
 	e.rec.Count("probe:publicrand_ok", 1)
 	e.checkServed(cc, "PublicRand", n.addr, want, resp.Round, resp.PreviousSignature, resp.Signature, nil)
 	_ = t0
+}
+
+func (e *daemonEngine) clientRandRound(n *dNode, id string, round uint64) {
+	resp, err := e.client("spray").PublicRand(context.Background(), n.pairs[id].Public, &drand.PublicRandRequest{Round: round, Metadata: &drand.Metadata{BeaconID: id}})
+	e.rec.Count("probe:publicrand_calls", 1)
+	if err != nil {
+		return
+	}
+	e.rec.Count("probe:publicrand_ok", 1)
+	e.checkServed(e.chains[id], "PublicRand", n.addr, round, resp.Round, resp.PreviousSignature, resp.Signature, nil)
 }
 
 func (e *daemonEngine) clientStream(n *dNode, id string, from uint64, max int) {
